@@ -1,6 +1,9 @@
 use crate::*;
 use rssl_text::SourceLocation;
+#[cfg(not(trark_rssl_verif))]
 use std::collections::HashMap;
+#[cfg(trark_rssl_verif)]
+use rssl_text::verif_collections::HashMap;
 
 /// Represents a full parsed and type checked source file
 #[derive(PartialEq, Clone, Default, Debug)]
@@ -470,8 +473,8 @@ impl Default for AssignBindingsParams {
 /// Verification hook: exposes the allocator state carried between declarations in assign_api_bindings
 #[cfg(trark_rssl_verif)]
 pub mod verif_alloc {
+    use super::HashMap;
     use std::cell::RefCell;
-    use std::collections::HashMap;
 
     /// (sorted (group, next free slot) pairs, sorted (group, inline constant bytes) pairs)
     pub type AllocSnapshot = (Vec<(u32, u32)>, Vec<(u32, u32)>);
